@@ -48,8 +48,10 @@ class Probe:
     likelihood / prior call index and arbitrary `on_call` observers (file probes).
     """
 
-    def __init__(self, target: Target, fault_like_at=None, fault_prior_at=None, recipe=False, record_x=False):
+    def __init__(self, target: Target, fault_like_at=None, fault_prior_at=None, recipe=False, record_x=False, cut_below=None):
         self.t = target
+        # hard cut: the likelihood is exactly zero (log L = -inf) for x0 < cut_below, inside the prior support
+        self.cut_below = cut_below
         self.fault_like_at = fault_like_at
         self.fault_prior_at = fault_prior_at
         self.recipe = recipe
@@ -115,13 +117,18 @@ class Probe:
                 if not ok:
                     self.c17["value_mismatch"] += 1
                     self.c17_witness = self.c17_witness or f"call {k}: carried log_prior differs from prior(x) recomputed at call time"
+        ll = self.t.log_like_x(x)
+        if self.cut_below is not None:
+            from array_api_compat import array_namespace
+
+            xp = array_namespace(x)
+            ll = xp.where(x[:, 0] < self.cut_below, xp.asarray(-math.inf, dtype=ll.dtype), ll)
         if self.recipe and lp is not None and not self._is_traced(x):
             from array_api_compat import array_namespace
 
             xp = array_namespace(x)
-            ll = self.t.log_like_x(x)
             return xp.where(xp.isfinite(xp.asarray(lp, dtype=ll.dtype)), ll, xp.asarray(-math.inf, dtype=ll.dtype))
-        return self.t.log_like_x(x)
+        return ll
 
 
 class RngProxy:
